@@ -34,7 +34,7 @@ class PROP(c02.PROP):
     weights = dict(trace=0.45, err=0.25, lists=0.1, calls=0.2, ctl=0.2)
     rule = ("exhaustive: every binary operator (incl. AND / OR) applied to every ordered pair of operand representatives of every kind "
             "(numbers 0, -0, -1, 0.5, 3, inf, NaN, 0.1+0.2, 0.3, 1e300; strings; booleans; NULL; empty / nested / aliased lists), NOT and unary "
-            "minus on every representative; random expression trees to depth 3 (quick) / 5 (thorough) whose leaves include tracing calls "
+            "minus on every representative, singly and stacked (NOT NOT x, - - x, NOT - x, - NOT x); random expression trees to depth 3 (quick) / 5 (thorough) whose leaves include tracing calls "
             "t(k, v) (display k, return v) and embedded assignments so evaluation order, exactly-once evaluation and short-circuit are "
             "visible in the output, with forced type errors; run by the implementation, the implementation model and the reference "
             "semantics. non-trivial = distinct program whose evaluation reaches an operator")
@@ -59,6 +59,10 @@ class PROP(c02.PROP):
                     out.append(Case(S.HEADER + "l <- [7]\nDISPLAY(%s %s %s)\n" % (x, op, y), meta={"op": op}))
         for x in flat:
             out.append(Case(S.HEADER + "l <- [7]\nDISPLAY(NOT %s)\nDISPLAY(-%s)\n" % (x, x), meta={"un": x[:20]}))
+            # stacked unary operators (each application counts: NOT NOT 5 is TRUE, - - "a" is an error)
+            out.append(Case(S.HEADER + "l <- [7]\nDISPLAY(NOT NOT %s)\nDISPLAY(NOT NOT NOT %s)\nDISPLAY(NOT - %s)\n" % (x, x, x), meta={"un2": x[:20]}))
+            out.append(Case(S.HEADER + "l <- [7]\nDISPLAY(- - %s)\n" % x, meta={"un2": x[:20]}))
+            out.append(Case(S.HEADER + "l <- [7]\nDISPLAY(- NOT %s)\n" % x, meta={"un2": x[:20]}))
         out += super().cases(rng, tier, scale)
         return out
 
